@@ -5,7 +5,7 @@ from .. import env, coq, runner
 
 LEVEL = 'proof'
 META = dict(
-    text='Coq theorems over hand-written Gallina models, in the shape of the code, of cirq/study/sweeps.py (len = length of the iteration; sweep[i] incl. negative indices; slices = ListSweep of the positions range(n)[slice] via the dictionary walk of __getitem__; Product lexicographic with the last factor fastest; Zip shortest prefix; ZipLongest repeats last values; Concat appends; Linspace endpoints and spacing over exact rationals), of ParamResolver.value_of (fast paths for Add/Mul/Pow, slow path by repeated sympy substitution, recursion sentinel: every answer is the fixed point of simultaneous substitution, for every interpretation of the arithmetic; complete; a reported loop is real; recursive=False is one substitution; unrelated symbols untouched), of ParamResolver._resolve_parameters_ (composition law under a stated hypothesis, refuted without it) and of cirq.flatten (every flattened parameter keeps its value under the transformed assignment, for any naming function). The models are evaluated by vm_compute on the same generated inputs as the implementation on every run (sweeps: exact; expressions: exact rational arithmetic); resolve-then-unitary, two-stage resolution, sub-circuits, tags, simulate_sweep/run_sweep and flatten/flatten_with_sweep are compared with numbers substituted by sympy.',
+    text='Coq theorems over hand-written Gallina models, in the shape of the code, of cirq/study/sweeps.py (len = length of the iteration; sweep[i] incl. negative indices; slices = ListSweep of the positions range(n)[slice] via the dictionary walk of __getitem__; Product lexicographic with the last factor fastest; Zip shortest prefix; ZipLongest repeats last values; Concat appends; Linspace endpoints and spacing over exact rationals), of ParamResolver.value_of (fast paths for Add/Mul/Pow, slow path by repeated sympy substitution, recursion sentinel: every answer is the fixed point of simultaneous substitution, for every interpretation of the arithmetic; complete; a reported loop is real; recursive=False is one substitution; unrelated symbols untouched), of ParamResolver._resolve_parameters_ (composition law under a stated hypothesis, refuted without it) and of cirq.flatten (every flattened parameter keeps its value under the transformed assignment, for any naming function). The models are evaluated by vm_compute on the same generated inputs as the implementation on every run (sweeps: exact; expressions: exact rational arithmetic); resolve-then-unitary, two-stage resolution, sub-circuits, tags, simulate_sweep (state-vector and density-matrix simulators, symbolic-constant parameters included)/run_sweep and flatten/flatten_with_sweep are compared with numbers substituted by sympy. The value_of model (recursive and single-step) is also compared with the parameter read back from objects resolved through the protocol (tagged / controlled operations, tag values, moments, circuits, sub-circuit parameter maps).',
     note='Trusted: Coq kernel; the Python adapters in vf/checks/c10.py (building Cirq objects from generated trees, sympy <-> tree conversion, printing exact rational literals); sympy as parser, printer and reference algebra; CPython slice.indices/range transcribed into the model (checked against range(n)[slice] on every run). The commute-with-unitary/simulation/flatten streams and the wider expression classes (fractional powers, trigonometric functions, pi, complex values) are differential tests against sympy substitution, not proofs. Memoisation of value_of is not in the proved model (the run queries one resolver object repeatedly and compares with the memo-free model).',
     technique='Rocq/Coq proof over executable Gallina models + vm_compute correspondence against the implementation + differential streams against sympy substitution',
 )
@@ -592,10 +592,90 @@ def with_timeout(seconds, f):
         signal.signal(signal.SIGALRM, old)
 
 
-def impl_value_of(res, e, recursive):
+class ValueTag:
+    """A tag carrying a (possibly symbolic) value and implementing the parameter protocol (what a calibration tag does)."""
+
+    def __init__(self, value):
+        self.value = value
+
+    def __eq__(self, other):
+        return isinstance(other, ValueTag) and self.value == other.value
+
+    def __hash__(self):
+        return hash(('c10.ValueTag', self.value))
+
+    def __repr__(self):
+        return f'ValueTag({self.value!r})'
+
+    def _is_parameterized_(self):
+        import cirq
+        return cirq.is_parameterized(self.value)
+
+    def _parameter_names_(self):
+        import cirq
+        return cirq.parameter_names(self.value)
+
+    def _resolve_parameters_(self, resolver, recursive):
+        import cirq
+        return ValueTag(cirq.resolve_parameters(self.value, resolver, recursive))
+
+
+# Entry points through which one and the same expression is resolved: the resolver itself (None) or an object that carries
+# the expression as a parameter and is resolved by the protocol (cirq.resolve_parameters(obj, resolver, recursive)).
+VIAS = ['op', 'tagged', 'tagvalue', 'ctrl_tagged', 'moment', 'circuit', 'submap']
+VIA_DESC = {'op': 'XPowGate(exponent=e).on(q0)', 'tagged': "XPowGate(exponent=e).on(q0).with_tags('c10-tag')",
+            'tagvalue': 'Z(q0).with_tags(ValueTag(e))', 'ctrl_tagged': "XPowGate(exponent=e).on(q0).controlled_by(q1).with_tags('c10-tag', ValueTag(0.5))",
+            'moment': "Moment(XPowGate(exponent=e).on(q0).with_tags('c10-tag'), Y(q1))",
+            'circuit': "Circuit(H(q0), XPowGate(exponent=e).on(q0).with_tags('c10-tag'))",
+            'submap': "CircuitOperation(FrozenCircuit(XPowGate(exponent=e).on(q0).with_tags('c10-tag'), CZ(q0, q1)), param_resolver=<the dictionary>)"
+                      ".mapped_circuit() (the parameter map of a sub-circuit is one resolution step by definition)"}
+
+
+def via_object(cirq, e, via):
+    """(object carrying e as a parameter, function reading the parameter back from the resolved object)."""
+    q0, q1 = cirq.LineQubit.range(2)
+    op = cirq.XPowGate(exponent=e).on(q0)
+
+    def tagged_exponent(r, tags=('c10-tag',)):
+        if not isinstance(r, cirq.TaggedOperation) or tuple(r.tags) != tags:
+            raise TypeError(f'tags changed: {r!r}')
+        return r.untagged.gate.exponent
+    if via == 'op':
+        return op, lambda r: r.gate.exponent
+    if via in ('tagged', 'submap'):
+        return op.with_tags('c10-tag'), tagged_exponent
+    if via == 'tagvalue':
+        return cirq.Z(q0).with_tags(ValueTag(e)), lambda r: r.tags[0].value
+    if via == 'ctrl_tagged':
+        def ctrl_exponent(r):
+            if not isinstance(r, cirq.TaggedOperation) or tuple(r.tags) != ('c10-tag', ValueTag(0.5)):
+                raise TypeError(f'tags changed: {r!r}')
+            g = r.untagged.gate
+            return getattr(g, 'sub_gate', g).exponent
+        return op.controlled_by(q1).with_tags('c10-tag', ValueTag(0.5)), ctrl_exponent
+    if via == 'moment':
+        return cirq.Moment(op.with_tags('c10-tag'), cirq.Y(q1)), lambda r: tagged_exponent(r.operation_at(q0))
+    if via == 'circuit':
+        return cirq.Circuit(cirq.H(q0), op.with_tags('c10-tag')), lambda r: tagged_exponent(r.operation_at(q0, 1))
+    raise ValueError(via)
+
+
+def observe_value(cirq, res, e, recursive, via=None):
+    """The value the implementation gives the expression e under the resolver, read through the entry point `via`."""
+    if via is None:
+        return res.value_of(e, recursive=recursive)
+    obj, extract = via_object(cirq, e, via)
+    if via == 'submap' and not recursive:
+        q0, q1 = cirq.LineQubit.range(2)
+        sub = cirq.CircuitOperation(cirq.FrozenCircuit(obj, cirq.CZ(q0, q1)), param_resolver=res)
+        return extract(sub.mapped_circuit().operation_at(q0, 0))
+    return extract(cirq.resolve_parameters(obj, res, recursive))
+
+
+def impl_value_of(res, e, recursive, via=None, cirq=None):
     """('val', tree, raw) | ('rec',) | ('other', description)."""
     try:
-        v = with_timeout(20, lambda: res.value_of(e, recursive=recursive))
+        v = with_timeout(20, lambda: observe_value(cirq, res, e, recursive, via))
     except RecursionError:
         return ('rec',)
     except Exception as ex:
@@ -681,30 +761,31 @@ def skeleton(t, entries):
     return t[1] + '(' + ','.join(skeleton(c, entries) for c in t[2]) + ')'
 
 
-def judge_value_of(cirq, entries, e, recursive=True, envs=None, only_exception=None):
+def judge_value_of(cirq, entries, e, recursive=True, envs=None, only_exception=None, via=None):
     """Spec-level verdict on the real code for one query on a fresh resolver: None if the property holds, else
     (kind, message).  Expected: RecursionError iff the query depends on a cycle; otherwise the value obtained by
-    substitution."""
+    substitution.  `via`: the object through which the expression is resolved (None = ParamResolver.value_of itself)."""
     import sympy
     res = make_resolver(cirq, entries)
     got = None
     try:
-        got = res.value_of(e, recursive=recursive)
+        got = observe_value(cirq, res, e, recursive, via)
         err = None
     except RecursionError:
         err = 'RecursionError'
     except Exception as ex:
         err = type(ex).__name__
+    label = f'value_of({e})' if via is None else f'the parameter read back (e = {e})'
     if only_exception is not None:       # minimising an unexpected exception: the reference value is not needed
-        return (err, f'value_of({e}) raised {err}') if err == only_exception else None
+        return (err, f'{label} raised {err}') if err == only_exception else None
     if recursive:
         want = ref_resolve(entries, e)
     else:
         want = sympy.sympify(e).subs(sym_dict(entries), simultaneous=True)
     if want is None:
-        return None if err == 'RecursionError' else ('no-loop-detected', f'value_of({e}) on a cyclic resolver returned {got!r} / raised {err}')
+        return None if err == 'RecursionError' else ('no-loop-detected', f'{label} on a cyclic resolver returned {got!r} / raised {err}')
     if err is not None:
-        return (err, f'value_of({e}) raised {err}, substitution gives {want}')
+        return (err, f'{label} raised {err}, substitution gives {want}')
     envs = envs or [{s: Fraction(3, 4) for s in GEN_SYMS + INT_SYMS + POS_SYMS}]
     try:
         gs = sympy.sympify(got)
@@ -712,12 +793,12 @@ def judge_value_of(cirq, entries, e, recursive=True, envs=None, only_exception=N
     except Exception:
         bad = True
     if bad:
-        return ('nan', f'value_of({e}) = {got!r}, substitution gives {want}')
+        return ('nan', f'{label} = {got!r}, substitution gives {want}')
     if not values_agree(got, want, envs):
-        return ('value', f'value_of({e}) = {got!r}, substitution gives {want}')
+        return ('value', f'{label} = {got!r}, substitution gives {want}')
     extra = {s.name for s in gs.free_symbols} - {s.name for s in want.free_symbols}
     if extra:
-        return ('symbols', f'value_of({e}) = {got!r} mentions {sorted(extra)}, substitution gives {want}')
+        return ('symbols', f'{label} = {got!r} mentions {sorted(extra)}, substitution gives {want}')
     return None
 
 
@@ -730,13 +811,13 @@ def subexprs(e):
     return out
 
 
-def spec_value_of(ctx, cirq, entries, e, recursive, envs, stream):
+def spec_value_of(ctx, cirq, entries, e, recursive, envs, stream, via=None):
     """Returns None (the property holds on this query), 'known' (a recorded finding) or 'new'.
     Decide on the real code whether the property's statement fails for this query; minimise to the smallest failing
     sub-expression (descending into dictionary values, then dropping dictionary entries that are not needed) so that the
     signature names the call site: value_of:<what goes wrong>:<head of the smallest failing expression>."""
     import sympy
-    verdict = judge_value_of(cirq, entries, e, recursive, envs)
+    verdict = judge_value_of(cirq, entries, e, recursive, envs, via=via)
     if verdict is None:
         return None
     sd = sym_dict(entries)
@@ -744,12 +825,12 @@ def spec_value_of(ctx, cirq, entries, e, recursive, envs, stream):
     for _ in range(40):
         smaller = None
         for s in sorted(subexprs(e)[1:], key=lambda x: len(str(x))):
-            v = judge_value_of(cirq, entries, s, recursive, envs, exc)
+            v = judge_value_of(cirq, entries, s, recursive, envs, exc, via=via)
             if v is not None:
                 smaller = (s, v)
                 break
         if smaller is None and isinstance(e, sympy.Symbol) and e in sd and sd[e] != e and not sd[e].is_Number:
-            v = judge_value_of(cirq, entries, sd[e], recursive, envs, exc)
+            v = judge_value_of(cirq, entries, sd[e], recursive, envs, exc, via=via)
             if v is not None:
                 smaller = (sd[e], v)
         if smaller is None:
@@ -758,13 +839,20 @@ def spec_value_of(ctx, cirq, entries, e, recursive, envs, stream):
     needed = list(entries)
     for kv in list(needed):
         trial = [x for x in needed if x is not kv]
-        v2 = judge_value_of(cirq, trial, e, recursive, envs, exc)
+        v2 = judge_value_of(cirq, trial, e, recursive, envs, exc, via=via)
         if v2 is not None and v2[0] == verdict[0]:
             needed, verdict = trial, v2
-    verdict = judge_value_of(cirq, needed, e, recursive, envs) or verdict
+    verdict = judge_value_of(cirq, needed, e, recursive, envs, via=via) or verdict
     head = 'sym' if isinstance(e, sympy.Symbol) else type(e).__name__.lower()
     sig = f'value_of:{verdict[0]}:{head}'
     mode = '' if recursive else ', recursive=False'
+    if via is not None:      # value_of itself is right on this query (the caller checked): the entry point is to blame
+        sig = f'resolve_via:{via}:{"recursive" if recursive else "once"}:{verdict[0]}'
+        how = 'cirq.resolve_parameters(obj, r)' if recursive else 'one resolution step (cirq.resolve_parameters_once(obj, r) / recursive=False)'
+        r = ctx.violation(sig, f'{how} with r = ParamResolver({dict(needed)!r}) on obj = {VIA_DESC[via]}, e = {e}: the parameter read back from the result '
+                          f'is not what ParamResolver.value_of and ordinary substitution give: {verdict[1]}{mode}',
+                          dict(kind='value_of', entries=[[k, repr_value(x)] for k, x in needed], expr=sympy_srepr(e), recursive=recursive, via=via))
+        return 'known' if r == 'known' else 'new'
     r = ctx.violation(sig, f'ParamResolver({dict(needed)!r}): {verdict[1]}{mode}',
                       dict(kind='value_of', entries=[[k, repr_value(x)] for k, x in needed], expr=sympy_srepr(e), recursive=recursive))
     return 'known' if r == 'known' else 'new'
@@ -785,16 +873,29 @@ def sympy_srepr(e):
     return sympy.srepr(sympy.sympify(e))
 
 
-def resolver_stream(ctx, cirq, n):
+def resolver_stream(ctx, cirq, n, vias=None):
+    """vias=None: the queries go to ParamResolver.value_of.  vias=[...]: the same generated dictionaries and expressions, but the
+    expression is placed in an object (bare / tagged / controlled operation, tag value, moment, circuit, sub-circuit parameter
+    map) and resolved through cirq.resolve_parameters(obj, resolver, recursive); the parameter read back from the result is
+    compared with the same model (recursive and single-step), and parameter_names / is_parameterized are those of the object.
+    Every corner dictionary is run through every entry point (for every seed), the random ones cycle through them."""
     import sympy
     rng = ctx.rng
     cases, terms = [], []
+    stream = 'value_of' if vias is None else 'resolve_via'
     corner = [([('a', 'b'), ('b', 3)], ['a', 'b', 'c']), ([('a', 1.0)], ['a', 'b']), ([], ['a']),
               ([('a', sympy.Symbol('b') + 1), ('b', sympy.Symbol('a') * 2)], ['a', 'b', 'c']),
               ([('a', sympy.Symbol('a'))], ['a']), ([('a', sympy.Symbol('a') + 1)], ['a', 'b']),
               ([('a', sympy.Symbol('b') + 1), ('b', sympy.Symbol('c') * 2), ('c', 0.5)], ['a', 'b', 'c'])]
     all_syms = GEN_SYMS + INT_SYMS + POS_SYMS
+    if vias is not None:
+        a_, b_, c_ = sympy.symbols('a b c')
+        corner = corner + [([('a', b_), ('b', 0.5)], ['a', 'b']), ([('a', b_), ('b', a_)], ['a', 'b']),
+                           ([('a', 'b'), ('b', 'c'), ('c', 'a')], ['a', 'c']), ([('a', 2 * b_ + c_), ('b', c_ + 1), ('c', 0.25)], ['a', 'b']),
+                           ([('a', 0.25), ('b', 0.5)], ['a', 'b'])]
+        corner = [cn for cn in corner for _ in vias]
     for i in range(n):
+        via = None if vias is None else vias[i % len(vias)]
         if i < len(corner):
             entries, qs = corner[i]
             queries = [sympy.Symbol(q) for q in qs] + [sympy.Symbol(qs[0]) * 2 + sympy.Symbol(qs[-1])]
@@ -821,22 +922,26 @@ def resolver_stream(ctx, cirq, n):
         envs = gen_envs(rng)
         rows = []
         for q, qt in zip(queries, qtrees):
-            g1 = impl_value_of(res, q, False)
-            g = impl_value_of(res, q, True)          # the resolver object (and its memo) is shared by all queries
-            names = sorted(cirq.parameter_names(q))
-            isp = bool(cirq.is_parameterized(q))
+            g1 = impl_value_of(res, q, False, via, cirq)
+            g = impl_value_of(res, q, True, via, cirq)          # the resolver object (and its memo) is shared by all queries
+            carrier = q if via is None else via_object(cirq, q, via)[0]
+            names = sorted(cirq.parameter_names(carrier))
+            isp = bool(cirq.is_parameterized(carrier))
             rows.append((q, qt, g, g1, names, isp))
             heads = tree_heads(qt)
             nontriv = tree_size(qt) >= 3 and any(k in {s.name for s in q.free_symbols} for k, _ in entries)
-            ctx.count('value_of', [rterm, expr_term(qt)], nontriv,
+            if via is not None:      # non-trivial here: one step and full resolution differ, or a compound expression
+                nontriv = nontriv or (g[0] != g1[0] or (g[0] == 'val' and g[1] != g1[1]))
+            ctx.count(stream, [rterm, expr_term(qt)] + ([via] if via else []), nontriv,
                       sample=dict(resolver=repr(res), expr=str(q), value=str(g[2]) if g[0] == 'val' else g[0], once=str(g1[2]) if g1[0] == 'val' else g1[0],
-                                  parameter_names=names))
-        cases.append((entries, envs, rows))
+                                  parameter_names=names, **({'via': VIA_DESC[via]} if via else {})))
+        cases.append((entries, envs, rows, via))
         qterm = llit(rows, lambda r: f'({expr_term(r[1])}, {impl_term(r[2])}, {impl_term(r[3])}, {llit(r[4], slit)}, {"true" if r[5] else "false"})')
         terms.append(f'(mkR {qlit(REL_TOL)} {llit(envs, env_term)} {rterm} {qterm})')
     allrows = [r for c in cases for r in c[2]]
-    ctx.cov.setdefault('distribution', {})['value_of'] = dict(
-        resolvers=len(cases), queries=len(allrows),
+    ctx.cov.setdefault('distribution', {})[stream] = dict(
+        resolvers=len(cases), queries=len(allrows), **({} if vias is None else {'by_entry_point': {v: sum(1 for c in cases if c[3] == v) for v in vias},
+                                                                                'once_differs_from_recursive': sum(1 for r in allrows if r[2][:2] != r[3][:2])}),
         by_depth={d: sum(1 for r in allrows if tree_depth(r[1]) == d) for d in range(0, 8)},
         impl_recursion_errors=sum(1 for r in allrows if r[2][0] == 'rec'), impl_symbolic_results=sum(1 for r in allrows if r[2][0] == 'val' and r[2][1][0] != 'N'),
         with_function_heads=sum(1 for r in allrows if tree_heads(r[1]) & set(FN_HEADS)), with_pow=sum(1 for r in allrows if 'pow' in tree_heads(r[1])))
@@ -845,37 +950,43 @@ def resolver_stream(ctx, cirq, n):
     bad = []
     for sh, lo in enumerate(range(0, len(terms), 150)):
         text = header + 'Definition cases : list rcase := [\n' + ';\n'.join(terms[lo:lo + 150]) + '].\nEval vm_compute in resolver_failures cases.\n'
-        flat = coq.parse_nat_list(coq.parse_evals(coq.coq_eval(f'c10_resolver_{ctx.seed}_{sh}', text))[0])
+        flat = coq.parse_nat_list(coq.parse_evals(coq.coq_eval(f'c10_{"resolver" if vias is None else "via"}_{ctx.seed}_{sh}', text))[0])
         bad += [(lo + flat[i], flat[i + 1], flat[i + 2]) for i in range(0, len(flat), 3)]
     names = {1: 'model-value/impl-error', 2: 'model-loop/impl-value', 3: 'value', 4: 'free-symbols', 5: 'model-out-of-fuel', 20: 'parameter_names'}
     for ci, qi, code in bad:
-        entries, envs, rows = cases[ci]
+        entries, envs, rows, via = cases[ci]
         q, qt, g, g1, pnames, isp = rows[qi]
         once = 10 < code < 20
         what = names.get(code - 10 if once else code, str(code))
         if code > 30:
             what = 'memo-model:' + names.get(code - 30, str(code))
-        bname = f'correspondence:value_of{"_once" if once else ""}:{what}'
+        bname = f'correspondence:{stream}{":" + via if via else ""}{"_once" if once else ""}:{what}'
         bdetail = f'resolver {dict(entries)!r}, expr {q}: implementation {(g1 if once else g)[:2]} vs model'
         if code == 20:
             ctx.mark_broken(bname, bdetail)
             want = sorted(s.name for s in q.free_symbols)
             if pnames != want or not isp:
-                ctx.violation('parameter_names', f'parameter_names({q}) = {pnames}, free symbols {want}; is_parameterized = {isp}',
-                              dict(kind='names', expr=sympy_srepr(q)))
+                if via is None:
+                    ctx.violation('parameter_names', f'parameter_names({q}) = {pnames}, free symbols {want}; is_parameterized = {isp}',
+                                  dict(kind='names', expr=sympy_srepr(q)))
+                else:
+                    ctx.violation(f'parameter_names:via:{via}', f'parameter_names({VIA_DESC[via]}) with e = {q} is {pnames}, the free symbols of e are {want}; '
+                                  f'is_parameterized = {isp}', dict(kind='names', expr=sympy_srepr(q), via=via))
             continue
         # decide on the real code: first this query alone on a fresh resolver, then the recorded sequence (shared memo)
-        verdict = spec_value_of(ctx, cirq, entries, q, not once, envs, 'value_of')
+        verdict = spec_value_of(ctx, cirq, entries, q, not once, envs, stream)
+        if verdict is None and via is not None:      # value_of itself is right: is it the entry point?
+            verdict = spec_value_of(ctx, cirq, entries, q, not once, envs, stream, via=via)
         if verdict is None and (g1 if once else g)[0] == 'unrep':
-            ctx.cov['distribution']['value_of']['outside_model_judged_by_sympy'] = ctx.cov['distribution']['value_of'].get('outside_model_judged_by_sympy', 0) + 1
+            ctx.cov['distribution'][stream]['outside_model_judged_by_sympy'] = ctx.cov['distribution'][stream].get('outside_model_judged_by_sympy', 0) + 1
             continue
         if verdict != 'known':
             ctx.mark_broken(bname, bdetail)          # a recorded finding does not break the correspondence; anything else does
         if verdict is None:
             res = make_resolver(cirq, entries)
             for (q2, _, _, _, _, _) in rows[:qi + 1]:
-                seq = impl_value_of(res, q2, True)
-            fresh = impl_value_of(make_resolver(cirq, entries), q, True)
+                seq = impl_value_of(res, q2, True, via, cirq)
+            fresh = impl_value_of(make_resolver(cirq, entries), q, True, via, cirq)
             if seq[0] != fresh[0] or (seq[0] == 'val' and not values_agree(seq[2], fresh[2], envs)):
                 ctx.violation('value_of:memo-changes-result', f'resolver {dict(entries)!r}: value_of({q}) after earlier queries gives {seq[1:]}, fresh resolver gives {fresh[1:]}',
                               dict(kind='value_of_seq', entries=[[k, repr_value(x)] for k, x in entries], exprs=[sympy_srepr(r[0]) for r in rows[:qi + 1]]))
@@ -1043,6 +1154,21 @@ def gen_pexpr(rng, depth, syms):
     return rng.choice([sympy.sin, sympy.cos])(sub())
 
 
+def gen_cexpr(rng):
+    """A symbolic constant: a sympy expression without free symbols (sympy.pi / 4, sympy.Rational(1, 3), sqrt(2) / 2 ...).  Such a
+    gate parameter is 'parameterized' (it only becomes a number through resolve_parameters) but has no parameter names."""
+    import sympy
+    base = [sympy.pi / 4, sympy.Rational(1, 3), sympy.sqrt(2) / 2, sympy.pi / 7, sympy.cos(sympy.pi / 5), -sympy.pi / 3, sympy.Rational(-5, 7),
+            sympy.E / 4, sympy.sqrt(3) - 1, 2 * sympy.pi / 3]
+    c = rng.choice(base)
+    r = rng.random()
+    if r < 0.2:
+        c = c + sympy.Rational(rng.randint(-3, 3), 4)
+    elif r < 0.3:
+        c = c * rng.choice(base)
+    return c
+
+
 def gen_full_resolver(rng, syms):
     """Every symbol ends up a number, through chains: values are numbers, aliases, or expressions of later symbols."""
     import sympy
@@ -1080,17 +1206,19 @@ def ref_number(entries, e):
     return c.real
 
 
-def gen_param_gate(rng, fam, syms, entries, all_numeric_prob=0.0):
-    """(symbolic gate record, numeric twin record, parameter expressions) or None."""
+def gen_param_gate(rng, fam, syms, entries, all_numeric_prob=0.0, const_prob=0.0):
+    """(symbolic gate record, numeric twin record, parameter expressions) or None.  const_prob: probability that all symbolic
+    parameters of the gate are symbolic constants (no free symbol)."""
     g0 = draw_gate(rng, fam)
     keys = sym_params(g0.fam, g0.p)
     chosen = [k for k in keys if rng.random() < 0.7] or keys[:1]
     if rng.random() < all_numeric_prob:
         chosen = []
+    const = const_prob > 0 and rng.random() < const_prob
     sym_assign, num_assign = {}, {}
     for k in chosen:
         for _ in range(6):
-            e = gen_pexpr(rng, rng.choice([0, 1, 1, 2, 3]), syms)
+            e = gen_cexpr(rng) if const else gen_pexpr(rng, rng.choice([0, 1, 1, 2, 3]), syms)
             v = ref_number(entries, e)
             if v is not None:
                 break
@@ -1217,7 +1345,7 @@ def flat_params(g):
 
 
 # ---- circuits --------------------------------------------------------------------------------------
-def gen_circuit_spec(rng, syms, entries, nq, allow_sub=True, depth=0):
+def gen_circuit_spec(rng, syms, entries, nq, allow_sub=True, depth=0, const_prob=0.0):
     """A list of op specs: dict(sym=G, num=G, qs=[...], wrap=None|'tag'|'ctrl'|('sub', inner_specs, reps, local)).
     Built twice (symbolic / numeric twin) by build_circuit.  `entries` may contain local symbols of enclosing sub-circuits."""
     ops = []
@@ -1243,7 +1371,7 @@ def gen_circuit_spec(rng, syms, entries, nq, allow_sub=True, depth=0):
             continue
         k = rng.choice([1, 1, 2, 2, 3]) if nq >= 3 else rng.choice([1, 1, 2])
         fam = rng.choice({1: ONE_Q, 2: TWO_Q, 3: THREE_Q}[k])
-        made = gen_param_gate(rng, fam, syms, entries, all_numeric_prob=0.25)
+        made = gen_param_gate(rng, fam, syms, entries, all_numeric_prob=0.25, const_prob=const_prob if depth == 0 else 0.0)
         if made is None:
             continue
         gs, gn, exprs = made
@@ -1456,66 +1584,144 @@ def gen_numeric_sweep(rng, syms):
     return t
 
 
+def simulators(cirq):
+    """(name, simulator, kind): every simulator is judged against the same reference (the state the matrix of the numerically
+    substituted circuit gives |0..0>), as a state vector or as the pure density matrix of it."""
+    import numpy as np
+    return [('Simulator', cirq.Simulator(dtype=np.complex128), 'sv'), ('DensityMatrixSimulator', cirq.DensityMatrixSimulator(dtype=np.complex128), 'dm')]
+
+
+def sim_state(kind, result):
+    return result.final_state_vector if kind == 'sv' else result.final_density_matrix
+
+
+def const_grid_specs(cirq):
+    """Fixed cases (every seed): a gate whose parameter is a symbolic constant, placed before / beside / after / around the swept
+    gate, bare, tagged and controlled, for several constants and gate families; plus a circuit where every gate is constant."""
+    import sympy
+    t = sympy.Symbol('t')
+    G = _gates.G
+    consts = [sympy.pi / 4, sympy.Rational(1, 3), sympy.sqrt(2) / 2, sympy.cos(sympy.pi / 5)]
+
+    def one(fam, key, e, qs, wrap=None):
+        shape = (2,) * len(qs) if wrap != 'ctrl' else (2,) * (len(qs) - 1)
+        p = {key: e}
+        if key == 'e':
+            p['s'] = 0.0
+        v = ref_number([('t', 0.0)], e)
+        return dict(sym=G(fam, dict(p), shape), num=G(fam, dict(p, **{key: v}), shape), qs=list(qs), wrap=wrap, exprs=[e])
+    h = dict(sym=G('HPow', dict(e=1.0, s=0.0), (2,)), num=G('HPow', dict(e=1.0, s=0.0), (2,)), qs=[0], wrap=None, exprs=[])
+    h1 = dict(h, qs=[1])
+    cx = dict(sym=G('CXPow', dict(e=1.0, s=0.0), (2, 2)), num=G('CXPow', dict(e=1.0, s=0.0), (2, 2)), qs=[0, 1], wrap=None, exprs=[])
+    out = []
+    for i, c in enumerate(consts):
+        swept = [one('XPow', 'e', t, [1]), one('Rz', 'rads', sympy.pi * t, [0]), one('CZPow', 'e', t + c, [0, 1]), one('YPow', 'e', t * t, [0])][i]
+        cgates = [one('Rz', 'rads', c, [0]), one('XPow', 'e', c, [0]), one('CZPow', 'e', c, [0, 1]), one('YPow', 'e', c, [1], 'tag'), one('ZPow', 'e', c, [1, 0], 'ctrl')]
+        for j, cg in enumerate(cgates):
+            layouts = [[h, cg, swept, cx], [h, h1, swept, cg, cx], [cg, h, swept, cg]]
+            out.append(layouts[(i + j) % 3])
+    out.append([h, one('Rz', 'rads', consts[0], [0]), one('XPow', 'e', consts[1], [1]), cx])      # no swept symbol in the circuit at all
+    return out
+
+
 def simulate_stream(ctx, cirq, n):
     import numpy as np, sympy
     rng = ctx.rng
-    sim = cirq.Simulator(dtype=np.complex128)
-    for i in range(n):
-        nq = rng.choice([2, 3])
-        syms = rng.sample(GEN_SYMS, rng.choice([1, 2]))
-        direct = [(s, 0.0) for s in syms]                     # circuit expressions are built over the swept symbols themselves
-        specs = gen_circuit_spec(rng, syms, direct, nq)
-        q = cirq.LineQubit.range(nq)
-        prefix = [cirq.H(q[0]), cirq.CNOT(q[0], q[1])] if rng.random() < 0.6 else []      # an unparameterized prefix (reused across the sweep)
+    sims = simulators(cirq)
+    dist = dict(with_symbolic_constant=0, with_prefix=0, grid=0)
+    grid = const_grid_specs(cirq)
+    for i in range(len(grid) + n):
+        if i < len(grid):
+            nq, syms, specs, prefix = 2, ['t'], grid[i], []
+            q = cirq.LineQubit.range(nq)
+            direct = [('t', 0.0)]
+            t = [('L', 't', 0.0, 1.0, 3), ('P', 't', [0.25, -0.5])][i % 2]
+            dist['grid'] += 1
+        else:
+            nq = rng.choice([2, 3])
+            syms = rng.sample(GEN_SYMS, rng.choice([1, 2]))
+            direct = [(s, 0.0) for s in syms]                     # circuit expressions are built over the swept symbols themselves
+            specs = gen_circuit_spec(rng, syms, direct, nq, const_prob=0.3 if i % 2 else 0.0)
+            q = cirq.LineQubit.range(nq)
+            prefix = [cirq.H(q[0]), cirq.CNOT(q[0], q[1])] if rng.random() < 0.6 else []      # an unparameterized prefix (reused across the sweep)
+            t = gen_numeric_sweep(rng, syms)
         try:
             cs = cirq.Circuit(prefix, build_ops(cirq, specs, 'sym', q))
         except Exception:
             continue
-        t = gen_numeric_sweep(rng, syms)
-        try:
-            simulate_case(ctx, cirq, sim, rng, cs, specs, prefix, q, syms, t)
-        except Exception as ex:
-            explain_exception(ctx, cirq, 'simulate_sweep', specs, direct, ex, dict(kind='simulate_sweep', circuit=repr(cs), tree=t))
-
-
-def simulate_case(ctx, cirq, sim, rng, cs, specs, prefix, q, syms, t):
-    if True:
-        used = sorted(cirq.parameter_names(cs))
-        try:
-            sweep = build_sweep(cirq, t)
-        except ValueError:
-            return
-        if len(sweep) == 0 or len(sweep) > 8:
-            return
-        rep = dict(kind='simulate_sweep', circuit=repr(cs), tree=t)
-        try:
-            results = sim.simulate_sweep(cs, sweep, qubit_order=q)
-        except Exception as ex:
-            # is plain resolution with the first assignment already wrong?  then it is the circuit-resolution finding
-            blame = circuit_blame(ctx, cirq, specs, q, sweep[0])
-            if blame != 'circuit':
-                ctx.disagree('differential:simulate_sweep', f'raised {type(ex).__name__}: {ex}'[:300], f'resolve:circuit:{blame}',
-                             f'simulate_sweep of\n{safe_str(cs)}\nover {sweep!r} raised {type(ex).__name__}: {ex}'[:600], rep)
-                return
-            raise
-        ctx.count('simulate_sweep', [repr(cs), sweep_term(t)], len(sweep) >= 2 and bool(used), sample=dict(circuit=safe_str(cs), sweep=repr(sweep), points=len(sweep)))
-        if len(results) != len(sweep):
-            ctx.violation('simulate_sweep:length', f'simulate_sweep returned {len(results)} results for a sweep of length {len(sweep)}', rep)
-            return
-        for j, (r, pr) in enumerate(zip(results, sweep)):
-            ents = dict_items(pr)
-            # reference: numbers substituted by sympy into every parameter, then simulated
+        dist['with_symbolic_constant'] += any(isinstance(e, sympy.Basic) and not e.free_symbols for s in specs for e in s['exprs'])
+        dist['with_prefix'] += bool(prefix)
+        for sim in sims:
             try:
-                twin = twin_circuit(cirq, prefix, specs, q, ents)
-            except ValueError:
-                continue                         # ordinary algebra gives no real parameter at this point
-            want = sim.simulate(twin, qubit_order=q).final_state_vector
-            single = sim.simulate(cs, pr, qubit_order=q).final_state_vector
-            if r.params != pr or not mats_close(r.final_state_vector, want, 1e-6) or not mats_close(single, want, 1e-6):
-                ctx.mark_broken('differential:simulate_sweep', f'point {j}')
-                ctx.violation('simulate_sweep:point', f'simulate_sweep of\n{safe_str(cs)}\nover {sweep!r}: result {j} (params {r.params}) differs from simulating the '
-                              f'circuit with {dict(ents)} substituted', dict(rep, point=j))
-                break
+                simulate_case(ctx, cirq, sim, rng, cs, specs, prefix, q, syms, t)
+            except Exception as ex:
+                explain_exception(ctx, cirq, 'simulate_sweep', specs, direct, ex, dict(kind='simulate_sweep', circuit=repr(cs), tree=t, simulator=sim[0]))
+    ctx.cov.setdefault('distribution', {})['simulate_sweep'] = dist
+
+
+def simulate_case(ctx, cirq, simrec, rng, cs, specs, prefix, q, syms, t):
+    import numpy as np
+    sim_name, sim, kind = simrec
+    used = sorted(cirq.parameter_names(cs))
+    try:
+        sweep = build_sweep(cirq, t)
+    except ValueError:
+        return
+    if len(sweep) == 0 or len(sweep) > 8:
+        return
+    rep = dict(kind='simulate_sweep', circuit=repr(cs), tree=t, simulator=sim_name)
+
+    def reference(pr):
+        """Numbers substituted by sympy into every parameter; the state the matrix of that circuit gives |0..0>."""
+        twin = twin_circuit(cirq, prefix, specs, q, dict_items(pr))
+        psi = twin.unitary(qubit_order=q)[:, 0]
+        return twin, (psi if kind == 'sv' else np.outer(psi, psi.conj()))
+
+    def same_state(x, want):
+        return mats_close(np.asarray(x).reshape(np.asarray(want).shape), want, 1e-6)
+    try:
+        results = sim.simulate_sweep(cs, sweep, qubit_order=q)
+    except Exception as ex:
+        # is plain resolution with the first assignment already wrong?  then it is the circuit-resolution finding
+        blame = circuit_blame(ctx, cirq, specs, q, sweep[0])
+        if blame != 'circuit':
+            ctx.disagree('differential:simulate_sweep', f'raised {type(ex).__name__}: {ex}'[:300], f'resolve:circuit:{blame}',
+                         f'{sim_name}.simulate_sweep of\n{safe_str(cs)}\nover {sweep!r} raised {type(ex).__name__}: {ex}'[:600], rep)
+            return
+        # the statement itself: simulating a sweep equals simulating each assignment separately.  Does every assignment, resolved
+        # and simulated on its own with the same simulator, give the state of the numerically substituted circuit?
+        try:
+            separately = all(same_state(sim_state(kind, sim.simulate(cirq.resolve_parameters(cs, pr), qubit_order=q)), reference(pr)[1]) for pr in sweep)
+        except Exception:
+            separately = False
+        if separately:
+            ctx.mark_broken('differential:simulate_sweep', f'{sim_name}: raised {type(ex).__name__}')
+            consts = sorted({str(e) for s in specs for e in s['exprs'] if hasattr(e, 'free_symbols') and not e.free_symbols})
+            ops_line = ', '.join(' '.join(str(op).split()) for op in cs.all_operations())
+            ctx.violation(f'simulate_sweep:raises:{sim_name}', f'{sim_name}.simulate_sweep over {sweep!r} raised {type(ex).__name__} on the circuit [{ops_line}]'
+                          + (f' (gate parameters that are symbolic constants: {consts})' if consts else '') +
+                          f' although resolving each of its {len(sweep)} assignments and simulating the resolved circuit with the same simulator works and gives the '
+                          f'state of the numerically substituted circuit; error: {str(ex)[:200]}; circuit:\n{safe_str(cs)}', rep)
+            return
+        raise
+    ctx.count('simulate_sweep', [sim_name, repr(cs), sweep_term(t)], len(sweep) >= 2 and bool(used), sample=dict(simulator=sim_name, circuit=safe_str(cs), sweep=repr(sweep), points=len(sweep)))
+    if len(results) != len(sweep):
+        ctx.violation('simulate_sweep:length', f'{sim_name}.simulate_sweep returned {len(results)} results for a sweep of length {len(sweep)}', rep)
+        return
+    for j, (r, pr) in enumerate(zip(results, sweep)):
+        ents = dict_items(pr)
+        # reference: numbers substituted by sympy into every parameter, then simulated
+        try:
+            twin, want = reference(pr)
+        except ValueError:
+            continue                         # ordinary algebra gives no real parameter at this point
+        twin_sim = sim_state(kind, sim.simulate(twin, qubit_order=q))
+        single = sim_state(kind, sim.simulate(cs, pr, qubit_order=q))
+        if r.params != pr or not same_state(twin_sim, want) or not same_state(sim_state(kind, r), want) or not same_state(single, want):
+            ctx.mark_broken('differential:simulate_sweep', f'{sim_name}: point {j}')
+            ctx.violation('simulate_sweep:point', f'{sim_name}.simulate_sweep of\n{safe_str(cs)}\nover {sweep!r}: result {j} (params {r.params}) differs from simulating the '
+                          f'circuit with {dict(ents)} substituted', dict(rep, point=j))
+            break
 
 
 def twin_circuit(cirq, prefix, specs, q, ents):
@@ -1939,12 +2145,18 @@ def run(ctx):
                 '[-n-2, n+2), four random slices (non-trivial = composite with >= 2 assignments). value_of: random dictionaries (numbers, aliases, '
                 'expressions of later symbols, self-maps, 12% with a cycle) and sympy trees of depth <= 5 over Add/Mul/Pow/Abs/Max/Min/floor/sign with '
                 'exact dyadic leaves, 2-4 queries on one resolver object, recursive and single-step, parameter_names/is_parameterized '
-                '(non-trivial = compound expression mentioning a bound symbol). compose: pairs of dictionaries, 25% re-introducing symbols. '
+                '(non-trivial = compound expression mentioning a bound symbol). resolve_via: the same dictionaries and expressions, the expression carried by '
+                'an object (bare / tagged / controlled+tagged operation, symbolic tag value, moment, circuit, parameter map of a sub-circuit) and resolved '
+                'through cirq.resolve_parameters(obj, r, recursive) recursively and as a single step, parameter read back and compared with the same '
+                'model; 12 fixed dictionaries (renaming onto a bound symbol, swap, alias cycle, chains, flat) through every entry point on every seed. compose: pairs of dictionaries, 25% re-introducing symbols. '
                 'flatten_model: tuples of expressions with repeated expressions and symbols named like generated names. value_of_float: '
                 'fractional powers, division, sin/cos/exp, pi, complex values against sympy substitution. gate_unitary: every parameterised gate '
                 'family, one-shot and two-stage resolution against the numerically built gate. circuit_unitary / simulate_sweep / run_sweep / flatten: '
                 '2-3 qubit circuits with tags, controlled operations, nested sub-circuits with and without param_resolver, unparameterised moments '
-                'and prefixes. distinct by canonical input')
+                'and prefixes. simulate_sweep: Simulator and DensityMatrixSimulator, both judged against the state given by the matrix of the '
+                'numerically substituted circuit; half of the random circuits and a fixed grid of 21 circuits carry gates whose parameter is a '
+                'symbolic constant (sympy expression without free symbols: pi/4, 1/3, sqrt(2)/2, cos(pi/5)) before / beside / after the swept gate, '
+                'bare, tagged and controlled; a sweep that raises is judged by simulating each assignment separately. distinct by canonical input')
     ctx.assumptions += ['vf/checks/c10.py adapters building Cirq sweeps/expressions/gates/circuits and canonicalising outputs',
                         'Python float/int <-> exact rational (Fraction) <-> Coq Q literal printing; sympy tree <-> model tree conversion',
                         'sympy substitution as the reference for ordinary algebra (differential streams and the spec-level oracles)',
@@ -1954,6 +2166,7 @@ def run(ctx):
     sweep_stream(ctx, cirq, 400 if quick else 4000)
     sweepable_stream(ctx, cirq, 100 if quick else 1000)
     resolver_stream(ctx, cirq, 300 if quick else 3000)
+    resolver_stream(ctx, cirq, 180 if quick else 2400, vias=VIAS)
     compose_stream(ctx, cirq, 120 if quick else 1500)
     flatten_model_stream(ctx, cirq, 120 if quick else 1500)
     float_stream(ctx, cirq, 150 if quick else 2000)
@@ -2009,8 +2222,9 @@ def _replay(ctx, data):
     if k == 'value_of':
         entries = load_entries(cirq, data['entries'])
         e = eval(data['expr'], ns)
-        v = judge_value_of(cirq, entries, e, data.get('recursive', True))
-        print(f'ParamResolver({dict(entries)!r}).value_of({e}, recursive={data.get("recursive", True)}):', v or 'agrees with substitution')
+        v = judge_value_of(cirq, entries, e, data.get('recursive', True), via=data.get('via'))
+        where = f' read through {VIA_DESC[data["via"]]}' if data.get('via') else ''
+        print(f'ParamResolver({dict(entries)!r}).value_of({e}, recursive={data.get("recursive", True)}){where}:', v or 'agrees with substitution')
         return v is None
     if k == 'value_of_seq':
         entries = load_entries(cirq, data['entries'])
@@ -2023,7 +2237,8 @@ def _replay(ctx, data):
         return seq[0] == fresh[0] and (seq[0] != 'val' or values_agree(seq[2], fresh[2], [{}]))
     if k == 'names':
         e = eval(data['expr'], ns)
-        return sorted(cirq.parameter_names(e)) == sorted(s.name for s in e.free_symbols) and cirq.is_parameterized(e)
+        carrier = via_object(cirq, e, data['via'])[0] if data.get('via') else e
+        return sorted(cirq.parameter_names(carrier)) == sorted(s.name for s in e.free_symbols) and cirq.is_parameterized(carrier)
     if k == 'gate':
         entries = load_entries(cirq, data['entries'])
         p = {}
@@ -2062,10 +2277,10 @@ def _replay(ctx, data):
         sweep = build_sweep(cirq, totuple(data['tree']))
         q = sorted(cs.all_qubits())
         if k == 'simulate_sweep':
-            sim = cirq.Simulator(dtype=np.complex128)
+            name, sim, kind = [x for x in simulators(cirq) if x[0] == data.get('simulator', 'Simulator')][0]
             res = sim.simulate_sweep(cs, sweep, qubit_order=q)
             return len(res) == len(sweep) and all(
-                a.params == pr and mats_close(a.final_state_vector, sim.simulate(cirq.resolve_parameters(cs, pr), qubit_order=q).final_state_vector, 1e-6)
+                a.params == pr and mats_close(sim_state(kind, a), sim_state(kind, sim.simulate(cirq.resolve_parameters(cs, pr), qubit_order=q)), 1e-6)
                 for a, pr in zip(res, sweep))
         res = cirq.Simulator(seed=1).run_sweep(cs, sweep, repetitions=3)
         return len(res) == len(sweep) and all(
